@@ -6,6 +6,11 @@ BASE = "cd /repo && go test -mod=mod -json -vet=off -count=1 -timeout 25m ./..."
 
 CLAIMED = {
  # id: (category, text, design_ref, level_note, technique)
+ "C08": ("other",
+  "The lock clause is decided completely for this code base: a forward dataflow over {unlocked,R,W} with LIFO defer modelling and per-entry-state summaries covers every call path from every function that can be entered without the lock to every one of the ~570 hdf5 call sites (readers need >=R, file-mutating calls need W; goroutine bodies start unlocked). Three structural clauses are added: Create can never reach a dataset write; an existing dataset is reused only under a shape comparison that depends on both shapes; file and memory selections use the same count function. Round-trip values and selection arithmetic are value properties and NOT decided.",
+  "DESIGN.md section 2, C08",
+  "hdf5 is opaque (cannot be compiled here): its API is classified reader/writer/neutral by a table in tool/c08.go. Recursive read-locking is treated conservatively. Outside package io the unexported lock cannot be held: such calls are accepted only where statically no goroutine started by module code can exist.",
+  "interprocedural lock-state dataflow (must-hold) over go/ssa + call-graph reachability + dominance of guard edges"),
  "C16": ("other",
   "Narrow structural claim: the unit-conversion constants that the models' identities rely on are decided exactly (rational arithmetic by the type checker against an SI table), and every use in models/ is as a factor. The identities themselves are value properties and are NOT decided.",
   "DESIGN.md section 2, C16",
